@@ -271,7 +271,9 @@ func (w *c04World) exec(op C04Op) Res {
 		case 1:
 			p = Parse(w.eng, src)
 		default:
-			p = ParseLoc(w.eng, src, filepath.Join(c20Root, "root.html"), 7)
+			// the start line is the caller's (here a function of the operation): two callers may
+			// parse the same bytes under the same path with different start lines
+			p = ParseLoc(w.eng, src, filepath.Join(c20Root, "root.html"), 7+(op.B*5+op.EP+op.K)%9)
 		}
 		if p.T == nil {
 			return p.Err
